@@ -59,7 +59,8 @@ BOUNDS = {
 OUTSIDE = ["index arrays with repeated entries (excluded by the property)",
            "a basic slice nested on an integer-array slice (the parent getter returns a copy; see report)",
            "histories longer than the bound and the unsampled words of the maximal length (see BOUNDS.enumeration)",
-           "mixing real and complex values inside one signal (NumPy casting rules)",
+           "mixing real and complex values inside one ARRAY signal (NumPy casting rules; Python scalars are covered by the "
+           "`scalar-mixed` configurations)",
            "slices of a signal whose state is None (raises by design), slices of scalar states",
            "user objects with a custom add_sensitivity (DyadCarrier is covered by C15)",
            "aliasing of values given to plain attribute assignment (Signal.state = v / Signal.sensitivity = v "
@@ -196,11 +197,12 @@ def _configs():
                     cfgs.append(dict(shape=sk, cplx=cplx, init=init, k1=k1, k2=kinds[(i + 1 + (int(init) + 2 * int(cplx)) % (len(kinds) - 1)) % len(kinds)]))
     for init in (False, True):
         cfgs.append(dict(shape="L", cplx=False, init=init, k1="I", k2="J"))
+        cfgs.append(dict(shape="s", cplx="mixed", init=init, k1=None, k2=None))
     return cfgs
 
 
 def _cfg_name(c):
-    return "%s-%s-%s-%s%s" % ({"s": "scalar", "z": "rank0", "1": "1d", "2": "2d", "3": "3d", "L": "1dlong"}[c["shape"]], "cplx" if c["cplx"] else "real",
+    return "%s-%s-%s-%s%s" % ({"s": "scalar", "z": "rank0", "1": "1d", "2": "2d", "3": "3d", "L": "1dlong"}[c["shape"]], ("mixed" if c["cplx"] == "mixed" else "cplx") if c["cplx"] else "real",
                               "init" if c["init"] else "noinit", c["k1"] or "", c["k2"] or "")
 
 
@@ -424,7 +426,10 @@ class _Vgen:
         name = "v%d" % self.k
         self.k += 1
         if shape == ():
-            v = self.V.cplx(name) if self.cplx else self.V.real(name)
+            if self.cplx == "mixed":      # Python scalars: real and complex contributions alternate (float + complex is complex)
+                v = self.V.real(name) if self.k % 2 == 1 else self.V.cplx(name)
+            else:
+                v = self.V.cplx(name) if self.cplx else self.V.real(name)
             if self.rank0:      # a rank-0 array: what NumPy reductions / upstream modules hand over, and mutable
                 return np.array(v, dtype=object) if self.V.symbolic else np.array(v)
             return v
